@@ -55,6 +55,30 @@ pub(crate) mod verif_common {
         s
     }
 
+    /// `str::replace` model for the only pattern the code under test uses (the TAB character): byte-wise copy with the
+    /// replacement spliced in, into a string of fixed capacity. std's implementation (CharSearcher + memchr) makes CBMC unwind
+    /// thousands of memchr iterations on heap strings. Validated natively against str::replace by engine/validate_stubs.py.
+    pub(crate) fn stub_replace_tab<P: core::str::pattern::Pattern>(s: &str, _from: P, to: &str) -> String {
+        let mut out = String::with_capacity(64);
+        let b = s.as_bytes();
+        let t = to.as_bytes();
+        let mut i = 0;
+        while i < b.len() {
+            if b[i] == b'\t' {
+                let mut j = 0;
+                while j < t.len() {
+                    unsafe { out.as_mut_vec().push(t[j]) };
+                    j += 1;
+                }
+            } else {
+                unsafe { out.as_mut_vec().push(b[i]) };
+            }
+            i += 1;
+        }
+        assert!(out.len() <= 64, "stub_replace_tab: bound exceeded");
+        out
+    }
+
     pub(crate) fn stub_false() -> bool {
         false
     }
